@@ -224,6 +224,24 @@ func (w *World) checkCloseOracles(v *Node) {
 	if v.closeCalledEv == 0 {
 		return
 	}
+	// (0) "once nothing is in flight the channel reaches the closed state": every call has
+	// ended and traffic has ceased, the other nodes are still up (their sockets open) - the
+	// closed node must have got there on its own
+	w.eval("C07.reaches-closed-alone")
+	if st := v.sampleState(); st != tchannel.ChannelClosed {
+		// give it the (generous) time a drain may take
+		ok := false
+		for waited := time.Duration(0); waited < 2*time.Minute; waited += 100 * time.Millisecond {
+			sleep(100 * time.Millisecond)
+			if v.sampleState() == tchannel.ChannelClosed {
+				ok = true
+				break
+			}
+		}
+		if !ok {
+			w.violate("C07", "never-closed", "channel %s is still %v long after its Close although every call has ended and its neighbours are alive (connections: %s)", v.Name, v.sampleState(), v.connSummary())
+		}
+	}
 	// (1) calls accepted before Close began complete with their correct result
 	for _, r := range w.Calls {
 		w.eval("C07.accepted-call-completes")
